@@ -36,6 +36,7 @@ Definition listener (b : Z) : Z := if 100 <? b then b - 100 else b.
 
 Record round := {
   rd_fail : list Z;        (* listeners that fail in this round (closed, or the connection is dropped mid-request) *)
+  rd_ll : list Z;          (* listeners whose answer contains a leaderless partition (the refresh retries) *)
   rd_ok : bool;            (* the call returned nil *)
   rd_tried : list Z        (* listeners that received a metadata request, in order *)
 }.
@@ -44,6 +45,7 @@ Record rcase := {
   rc_attempts : nat;       (* Metadata.Retry.Max *)
   rc_brokers : list Z;     (* the brokers every metadata response lists *)
   rc_unreachable : list Z; (* listeners that are closed: they fail, and no request is observed there *)
+  rc_deadline : bool;      (* Metadata.Timeout is set *)
   rc_rounds : list round }.
 
 Definition answer_of (fail : list Z) (b : Z) : outcome := if mem (listener b) fail then Fails else Answers.
@@ -88,27 +90,31 @@ Definition ok_conc (c : ncase) : bool :=
                      obs_eqb (snd (step (nc_a c) sa' (fst co))) (snd co)) (nc_reads c).
 Definition mismatches_conc := mismatches ok_conc.
 
-(* ---- candidate iteration with Metadata.Timeout set ---- *)
-(* as [rcase], but the calls run under a deadline: when it passes is not observable, so any moment is accepted
-   (the deadline stream is k times "not yet", then "passed" for ever) *)
+(* ---- candidate iteration with Metadata.Timeout set and / or leaderless answers ---- *)
+(* as [rcase], but the calls may run under a deadline: when it passes is not observable, so any moment is
+   accepted (the deadline stream is k times "not yet", then "passed" for ever); without Metadata.Timeout the
+   stream is empty. A leaderless answer makes the refresh retry with the advertised brokers as known brokers,
+   which `any` again meets in some order. *)
 Definition dl_at (k : nat) : list bool := repeat false k ++ repeat true 24.
+Definition dl_choices (deadline : bool) : list (list bool) := if deadline then map dl_at (seq 0 14) else [[]].
 
-Fixpoint run_rounds_d (attempts : nat) (brokers unreachable : list Z) (c : cands) (rs : list round) : bool :=
+Fixpoint run_rounds_d (deadline : bool) (attempts : nat) (brokers unreachable : list Z) (c : cands) (rs : list round) : bool :=
   match rs with
   | [] => true
   | r :: rest =>
-    existsb (fun order => existsb (fun k =>
+    existsb (fun order => existsb (fun adv => existsb (fun dl =>
       let c0 := {| seeds := seeds c; dead := dead c; known := order |} in
-      let '(c1, res, tr, _) := refresh_d (answer_of (rd_fail r)) attempts c0 [] (dl_at k) in
+      let '(c1, res, tr, _) := refresh_d (answer_of (rd_fail r)) (fun b => mem (listener b) (rd_ll r)) adv attempts c0 [] dl in
       let seen := filter (fun l => negb (mem l unreachable)) (map listener tr) in
       list_eqb Z.eqb seen (rd_tried r) &&
       match res with
-      | RSuccess b => rd_ok r && run_rounds_d attempts brokers unreachable {| seeds := seeds c1; dead := dead c1; known := brokers |} rest
-      | ROutOfBrokers => negb (rd_ok r) && run_rounds_d attempts brokers unreachable c1 rest
+      | RSuccess b => rd_ok r && run_rounds_d deadline attempts brokers unreachable {| seeds := seeds c1; dead := dead c1; known := brokers |} rest
+      | ROutOfBrokers => negb (rd_ok r) && run_rounds_d deadline attempts brokers unreachable c1 rest
       | RAuth _ => false
-      end) (seq 0 14)) (perms (known c))
+      end) (dl_choices deadline)) (perms brokers)) (perms (known c))
   end.
 
 Definition ok_dl (c : rcase) : bool :=
-  run_rounds_d (rc_attempts c) (rc_brokers c) (rc_unreachable c) {| seeds := rc_seeds c; dead := []; known := [] |} (rc_rounds c).
+  run_rounds_d (rc_deadline c) (rc_attempts c) (rc_brokers c) (rc_unreachable c)
+               {| seeds := rc_seeds c; dead := []; known := [] |} (rc_rounds c).
 Definition mismatches_dl := mismatches ok_dl.
